@@ -199,9 +199,10 @@ fn fam_paths(o: &mut Out, props: &str, seed0: u64, deadline: Instant) {
 fn fam_histories(o: &mut Out, props: &str, seed0: u64, deadline: Instant) {
     let sp = space();
     let mut k = 0u64;
-    'outer: for pl in planners() {
-        for variant in 0..6u64 {
-            for ds in 0..3u64 {
+    // ds outermost: every (variant, planner) pair is visited once before any pair is visited a second time (the budget may end early)
+    'outer: for ds in 0..3u64 {
+        for variant in 0..10u64 {
+            for pl in planners() {
                 if Instant::now() > deadline { break 'outer; }
                 let seed = seed0.wrapping_mul(1000) + 500 + k; k += 1;
                 let (step, radius) = (0.6, 1.2);
@@ -231,6 +232,38 @@ fn fam_histories(o: &mut Out, props: &str, seed0: u64, deadline: Instant) {
                         if let Ok(path) = inst.solve(Duration::from_millis(600)) { check_path(o, props, &scen, seed, &sp, &w_wall, &p2, &path, Inst::limit(pl, step, radius)); }
                         // and once more after a success
                         if let Ok(path) = inst.solve(Duration::from_millis(600)) { check_path(o, props, &scen, seed, &sp, &w_wall, &p2, &path, Inst::limit(pl, step, radius)); }
+                    }
+                    6 => { // the SAME problem object again, with a stricter checker: nothing validated against the old checker may survive
+                        inst.setup(p2.clone(), w_open.clone()); let _ = inst.solve(Duration::from_millis(300));
+                        inst.setup(p2.clone(), w_wall.clone());
+                        if let Ok(path) = inst.solve(Duration::from_millis(500)) { check_path(o, props, &scen, seed, &sp, &w_wall, &p2, &path, Inst::limit(pl, step, radius)); }
+                    }
+                    7 => { // PRM: a first query that fails early (the start is sealed into a tiny cell), then a new problem on the same roadmap
+                        if let Inst::Prm(p) = &mut inst {
+                            let cell = Arc::new(World { boxes: vec![(0.8, 1.2, 0.8, 0.95), (0.8, 1.2, 1.05, 1.2), (0.8, 0.95, 0.8, 1.2), (1.05, 1.2, 0.8, 1.2)], log: Mutex::new(vec![]) });
+                            let sealed = pd(&sp, (1.0, 1.0), (8.0, 2.0 + ds as f64), 0.7);
+                            let vc: Arc<dyn StateValidityChecker<S>> = cell.clone();
+                            p.setup(sealed.clone(), vc); let _ = p.construct_roadmap();
+                            let _ = p.solve(Duration::from_millis(300));
+                            let _ = p.solve(Duration::from_micros(1));          // and one that runs out of time
+                            p.set_problem_definition(p2.clone());
+                            if let Ok(path) = p.solve(Duration::from_millis(500)) { check_path(o, props, &scen, seed, &sp, &cell, &p2, &path, radius); }
+                        }
+                    }
+                    8 => { // several start states, the first one invalid: no planner may root its answer in an invalid state
+                        // (the obstacle under the first start is a sliver narrower than the motion-check spacing, so a tree rooted there can leave it)
+                        let sliver = Arc::new(World { boxes: vec![(4.99, 5.01, 0.0, 6.0)], log: Mutex::new(vec![]) });
+                        let multi = Arc::new(ProblemDefinition { space: sp.clone(), start_states: vec![RealVectorState::new(vec![5.0, 2.0 + ds as f64]), RealVectorState::new(vec![9.0, 1.0])], goal: Arc::new(DiscGoal { c: (1.0, 9.0), r: 0.5 }) });
+                        inst.setup(multi.clone(), sliver.clone());
+                        if let Ok(path) = inst.solve(Duration::from_millis(400)) { check_path(o, props, &scen, seed, &sp, &sliver, &multi, &path, Inst::limit(pl, step, radius)); }
+                    }
+                    9 => { // a start just outside the sampling bounds (the checker accepts it): the path still starts exactly there.
+                           // Only for C02: such a path legitimately has an out-of-bounds first state (C04 premise: start inside).
+                        if props == "C02" {
+                            let outside = pd(&sp, (-0.25, 5.0 + ds as f64), (2.5, 5.0), 0.6);
+                            inst.setup(outside.clone(), w_open.clone());
+                            if let Ok(path) = inst.solve(Duration::from_millis(400)) { check_path(o, props, &scen, seed, &sp, &w_open, &outside, &path, Inst::limit(pl, step, radius)); }
+                        }
                     }
                     _ => { // PRM: reuse the roadmap for a new start / goal
                         if let Inst::Prm(p) = &mut inst {
